@@ -2116,6 +2116,11 @@ pub fn try_parse<I>(pattern: I, flags: api::Flags) -> Result<ir::Regex, Error>
 where
     I: Iterator<Item = u32> + Clone,
 {
+    let mut flags = flags;
+    if flags.unicode_sets {
+        // The `v` flag implies all of the behaviors of the `u` flag.
+        flags.unicode = true;
+    }
     let mut p = Parser {
         input: pattern.peekable(),
         flags,
